@@ -328,7 +328,7 @@ class Sess:
 
 
 def run(ctx):
-    ctx.set_budget(75, 780)
+    ctx.set_budget(85, 780)
     ctx.assume("counter jump rule: moving _channel_counter stands for the 2^24 opens it would take to get there; every value is reachable with the modelled channels still open")
 
     class Machine(RuleBasedStateMachine):
@@ -393,7 +393,19 @@ def run(ctx):
             finally:
                 s.close()
 
-    ctx.explore_machine(Machine, ctx.scale(90, 700), steps=40)
+    try:
+        ctx.explore_machine(Machine, ctx.scale(90, 700), steps=40)
+    except Exception as e:
+        # Once the safety-net budget is exhausted the machine turns into a no-op, which hypothesis reports as
+        # flaky data generation when it happens while a failing history is being shrunk/replayed. That says
+        # nothing about paramiko: keep the (unshrunk) failure if there is one, else the run is inconclusive.
+        import hypothesis.errors as HE
+
+        if not (ctx.budget_hit and isinstance(e, HE.Flaky)):
+            raise
+        ctx.inconc("budget-hit-while-shrinking")
+        if ctx._last_fail is not None and ctx._last_fail[0] not in ctx.unknown and ctx._last_fail[0] not in ctx.known_hits:
+            ctx._record_unknown(*ctx._last_fail)
 
 
 def replay(ctx, case):
